@@ -44,20 +44,26 @@ SlotFixed(s, lg) == IF s = "X" THEN Ext(HiZ, lg) ELSE None
 \* the wrapper; it deliberately differs from the fixed value)
 SlotStarts(s) == CASE s = "U" -> {0, 3} [] s = "L" -> {1, 3} [] s = "H" -> {0, 2} [] s = "B" -> {1, 2} [] s = "X" -> {1}
 
-KindLog == {<<k, lg>> \in Kinds \X BOOLEAN : (AlwaysLog(k) => lg) /\ (NeverLog(k) => ~lg)}
+\* The obligations of a kind depend only on IsLocal / IsPrimary / ReturnsBest / AlwaysLog / NeverLog: one
+\* representative per class (optimize: the natural-parameter scipy wrappers, optimize_log: the log ones)
+MCKinds == {"opt", "optimize", "optimize_log", "optimize_grid"}
+ASSUME \A k \in Kinds : \E r \in MCKinds : /\ IsLocal(k) = IsLocal(r) /\ IsPrimary(k) = IsPrimary(r) /\ ReturnsBest(k) = ReturnsBest(r)
+                                            /\ AlwaysLog(k) = AlwaysLog(r) /\ NeverLog(k) = NeverLog(r)
+KindLog == {<<k, lg>> \in MCKinds \X BOOLEAN : (AlwaysLog(k) => lg) /\ (NeverLog(k) => ~lg)}
 
 MCStart ==
-    \E n \in 1..MaxN : \E kl \in KindLog : \E sl \in [1..n -> Slots] :
-    \E z0 \in [1..n -> Z] :
-        /\ \A i \in 1..n : z0[i] \in SlotStarts(sl[i])
-        /\ LET k  == kl[1]
-               lg == kl[2]
-               fx == [i \in 1..n |-> SlotFixed(sl[i], lg)]
-               p  == [i \in 1..n |-> IF IsLocal(k) THEN Ext(z0[i], lg) ELSE None]
-               sp == [i \in 1..n |-> IF fx[i] = None THEN p[i] ELSE fx[i]]
-           IN  /\ (~IsLocal(k) => \A i \in 1..n : z0[i] = 1)      \* no start point: one representative
-               /\ Start(k, p, [i \in 1..n |-> SlotLb(sl[i], lg)], [i \in 1..n |-> SlotUb(sl[i], lg)], fx, lg,
-                        IF IsLocal(k) THEN LL(sp) ELSE None)
+    /\ phase = "idle"
+    /\ \E n \in 1..MaxN : \E kl \in KindLog : \E sl \in [1..n -> Slots] : \E z0 \in [1..n -> Z] :
+          LET k  == kl[1]
+              lg == kl[2]
+              fx == [i \in 1..n |-> SlotFixed(sl[i], lg)]
+              p  == [i \in 1..n |-> IF IsLocal(k) THEN Ext(z0[i], lg) ELSE None]
+              sp == [i \in 1..n |-> IF fx[i] = None THEN p[i] ELSE fx[i]]
+          IN  /\ \A i \in 1..n : z0[i] \in SlotStarts(sl[i])
+              \* no start point: one representative
+              /\ (~IsLocal(k) => \A i \in 1..n : \A z \in SlotStarts(sl[i]) : z0[i] <= z)
+              /\ Start(k, p, [i \in 1..n |-> SlotLb(sl[i], lg)], [i \in 1..n |-> SlotUb(sl[i], lg)], fx, lg,
+                       IF IsLocal(k) THEN LL(sp) ELSE None)
 
 \* ---- the wrapper: down-projection, inner coordinates ----
 lbr == Down(lb, fixed)
@@ -105,7 +111,7 @@ TypeOK == /\ phase \in {"idle", "running", "done", "probed"}
           /\ Len(evals) <= MaxEvals
           /\ (phase = "probed" => probe.p = ret.p)
 \* the projection laws for the mask of the current call
-UpDownHere == UpDownInverse(fixed, {"0", "1", "2"})
+UpDownHere == (phase = "running" /\ evals = <<>>) => UpDownInverse(fixed, {"0", "1", "2"})
 
 (***************************************************************************)
 (* Static laws (evaluated once, before exploration)                        *)
